@@ -337,6 +337,7 @@ theorem consistent_iff (s : Sequence) :
   · rintro ⟨hsr, srs, chans, h1, h2, h3, h4, h5⟩
     simp [hsr, h1, h2, h3, h4, h5]
 
+/-- helper: every result of a successful `mapM` comes from some input (used for the clause "a + b is consistent") -/
 theorem mapM_mem_rev {α β : Type} (f : α → Except Err β) (l : List α) (r : List β) (h : l.mapM f = .ok r) (b : β)
     (hb : b ∈ r) : ∃ a ∈ l, f a = .ok b := by
   obtain ⟨i, hi, rfl⟩ := List.getElem_of_mem hb
@@ -510,6 +511,7 @@ theorem built_inv (s : Sequence) (h : Built s) : SeqInv s := by
     · exact ih
   | specsOf s _ ih => exact ⟨rfl, ih.2⟩
 
+/-- clause "sequencing entries of a + b": `Aligned`, the hypothesis of `addCore_sequencing`, holds of every built sequence -/
 theorem built_aligned (s : Sequence) (h : Built s) : Aligned s := (built_inv s h).1
 
 /-! ### associativity at the level of `+` -/
@@ -562,7 +564,8 @@ theorem addCore_seq_right (a b : Sequence) (ha : Positions a.data) (hb : Positio
 def shiftPos (N : ℕ) (r : ℕ × ForgedPos) : ℕ × ForgedPos :=
   (r.1 + N, { r.2 with sequencing := retargetSeq (N : ℤ) r.2.sequencing })
 
-theorem get?_some_of_mem_keys {α : Type} (d : Dict ℤ α) (k : ℤ) (h : k ∈ Dict.keys d) : ∃ v, Dict.get? d k = some v :=
+/-- helper: a key of a dictionary has a value (used for the forged-output clause) -/
+theorem get_some_of_mem_keys {α : Type} (d : Dict ℤ α) (k : ℤ) (h : k ∈ Dict.keys d) : ∃ v, Dict.get? d k = some v :=
   Option.isSome_iff_exists.mp ((Dict.get?_isSome_iff d k).mpr h)
 
 /-- the core of `forge_add`: the positions of the sum forge to `a`'s followed by `b`'s shifted, given
@@ -579,7 +582,7 @@ theorem forge_add_core (a b : Sequence) (ha : a.checkConsistency = .ok true) (hb
   have hcons := add_consistent a b ha hb hsh
   have hlen := (addCore_positions a b hpa hpb).1
   -- settings: the sum answers every look-up like `a` and like `b`
-  have specA : SameSpecs (addCore a b) a := fun k => (G5.eqBy_get? ia.2 ib.2 hab k).symm
+  have specA : SameSpecs (addCore a b) a := fun k => (G5.eqBy_get ia.2 ib.2 hab k).symm
   have specB : SameSpecs (addCore a b) b := fun _ => rfl
   rw [forge_ok_iff_steps]
   refine ⟨hcons, hch, ?_⟩
@@ -590,8 +593,8 @@ theorem forge_add_core (a b : Sequence) (ha : a.checkConsistency = .ok true) (hb
       intro i hi
       have hi' : i < a.data.length := List.mem_range.mp hi
       have hk : ((i + 1 : ℕ) : ℤ) ∈ Dict.keys a.data := (hpa.mem _).mpr (by push_cast; omega)
-      obtain ⟨en, hen⟩ := get?_some_of_mem_keys _ _ hk
-      obtain ⟨q, hq⟩ := get?_some_of_mem_keys a.sequencing _ (by rw [ia.1]; exact hk)
+      obtain ⟨en, hen⟩ := get_some_of_mem_keys _ _ hk
+      obtain ⟨q, hq⟩ := get_some_of_mem_keys a.sequencing _ (by rw [ia.1]; exact hk)
       have hq' : Dict.get? (addCore a b).sequencing ((i + 1 : ℕ) : ℤ) = some q := by
         rw [addCore_seq_left a b hpa hpb ia.1 ib.1 _ hk, hq]
       unfold forgeStep
@@ -604,8 +607,8 @@ theorem forge_add_core (a b : Sequence) (ha : a.checkConsistency = .ok true) (hb
       intro j hj
       have hj' : j < b.data.length := List.mem_range.mp hj
       have hk : ((j + 1 : ℕ) : ℤ) ∈ Dict.keys b.data := (hpb.mem _).mpr (by push_cast; omega)
-      obtain ⟨en, hen⟩ := get?_some_of_mem_keys _ _ hk
-      obtain ⟨q, hq⟩ := get?_some_of_mem_keys b.sequencing _ (by rw [ib.1]; exact hk)
+      obtain ⟨en, hen⟩ := get_some_of_mem_keys _ _ hk
+      obtain ⟨q, hq⟩ := get_some_of_mem_keys b.sequencing _ (by rw [ib.1]; exact hk)
       have hcast : ((a.data.length + j + 1 : ℕ) : ℤ) = ((j + 1 : ℕ) : ℤ) + (a.data.length : ℤ) := by
         push_cast; ring
       have hq' : Dict.get? (addCore a b).sequencing ((a.data.length + j + 1 : ℕ) : ℤ) =
@@ -648,6 +651,7 @@ theorem forge_add (a b s : Sequence) (h : a.add b = .ok s) (hsh : SameShape a b)
     simp only [Option.map_some, channels_copyEntry]
     exact ⟨ca, hca⟩
 
+/-- helper for the empty-left-operand case of the forged-output clause: shifting by 0 positions changes nothing -/
 theorem shiftPos_zero (r : ℕ × ForgedPos) : shiftPos 0 r = r := by
   obtain ⟨p, ⟨q, b, c⟩⟩ := r
   obtain ⟨q1, q2, q3, q4, q5⟩ := q
@@ -699,6 +703,7 @@ def countsOf (b : BP) (sr : ℚ) : List ℕ :=
   | .ok ds => (match countsGo sr ds with | .ok ns => ns | .error _ => [])
   | .error _ => []
 
+/-- helper for the blueprint-marker clause: `countsOf` is the list of sample counts the forger computed -/
 theorem countsOf_eq (b : BP) (sr : ℚ) (ds : List ℚ) (ns : List ℕ) (h1 : b.resolveWaits = .ok ds)
     (h2 : countsGo sr ds = .ok ns) : countsOf b sr = ns := by
   simp only [countsOf, h1, h2]
@@ -713,6 +718,7 @@ def segSpecs (b : BP) (sr : ℚ) (ns : List ℕ) (which : ℕ) : List Mark :=
 /-- marker `which` of a forged blueprint -/
 def markerOf (f : Forged) (which : ℕ) : List ℕ := if which = 1 then f.m1 else f.m2
 
+/-- helper for the blueprint-marker clause: a forged marker is the painting of its marker specifications -/
 theorem markerOf_assemble (b : BP) (sr : ℚ) (ns : List ℕ) (which : ℕ) :
     markerOf (assemble b sr ns) which =
       paint (sumN ns) ((absMarks b which ++ segSpecs b sr ns which).map (window (sumN ns) sr)) := by
